@@ -100,14 +100,15 @@ theorem EdwardsIsIdentity_iff {P : Ext} {A : Ed25519} (hP : Represents P A) :
 /-- **IsSmallOrder** is `IsIdentity ∘ MulByCofactor` (by `rfl` on the regenerated programs) … -/
 theorem EdwardsIsSmallOrder_comp (X Y Z T : Nat) :
     EdwardsIsSmallOrder_sh X Y Z T =
-      (let m := EdwardsMulByCofactor_sh X Y Z T
-       EdwardsIsIdentity_sh (m.getD 0 0) (m.getD 1 0) (m.getD 2 0) (m.getD 3 0)) := rfl
+      EdwardsIsIdentity_sh (Ext.ofList (EdwardsMulByCofactor_sh X Y Z T)).X (Ext.ofList (EdwardsMulByCofactor_sh X Y Z T)).Y
+        (Ext.ofList (EdwardsMulByCofactor_sh X Y Z T)).Z (Ext.ofList (EdwardsMulByCofactor_sh X Y Z T)).T := rfl
 
 open Classical in
 /-- … hence decides membership in the 8-torsion subgroup -/
 theorem EdwardsIsSmallOrder_iff {P : Ext} {A : Ed25519} (hP : Represents P A) :
     EdwardsIsSmallOrder_sh P.X P.Y P.Z P.T = [if (8 : ℕ) • A = 0 then 1 else 0] := by
+  have h := EdwardsIsIdentity_iff (EdwardsMulByCofactor_rep hP)
   rw [EdwardsIsSmallOrder_comp]
-  exact EdwardsIsIdentity_iff (EdwardsMulByCofactor_rep hP)
+  exact h
 
 end Voi.Props.FL
